@@ -245,6 +245,15 @@ def fixed_cases(first):
           dict(op='P', h=1, nbytes=64, spec_err=0, spec_usage=None, nonlifo=False), dict(op='I', h=2, nbytes=64, spec_err=0, spec_usage=None, nonlifo=False),
           dict(op='W', spec_err=0, n=1, spec_usage=None, nonlifo=False), dict(op='END')]
     cases.append((L2, M2, {}))
+    # a buffered put larger than 4096 bytes (auto hint), completed by wait and by cancel: the caller's buffer, overwritten
+    # by the caller right after posting, must never be touched again (seeded change C13-1: bput flagged "swapped in place")
+    L3 = ['CASE %d 0' % (first + 4), 'A 40000', 'B 0 3 0 1 1 0 8192 2 a 0 0 1 0 2048', 'B 1 3 0 1 1 0 8192 2 a 0 4 1 2048 2048',
+          'B 2 3 0 1 1 0 8192 4 a 0 0 1 0 1024', 'W 2 1 0', 'X 1 2', 'END']
+    M3 = [dict(op='CASE'), dict(op='A', spec_err=0, spec_usage=0, nonlifo=False),
+          dict(op='B', h=0, nbytes=8192, spec_err=0, spec_usage=8192, nonlifo=False), dict(op='B', h=1, nbytes=8192, spec_err=0, spec_usage=16384, nonlifo=False),
+          dict(op='B', h=2, nbytes=8192, spec_err=0, spec_usage=24576, nonlifo=False),
+          dict(op='W', spec_err=0, n=2, spec_usage=8192, nonlifo=True), dict(op='X', spec_err=0, n=1, spec_usage=0, nonlifo=True), dict(op='END')]
+    cases.append((L3, M3, {}))
     cases.append((L, M, {}))
     return cases
 
